@@ -424,6 +424,19 @@ def _workload(tier, rng, shard, nshards, work):
         if kg is None:
             continue
         out = os.path.join(str(work), "out%d.KlattGrid" % (k % 3))
+        if k % 4 == 1:
+            # a sub-tier added through the API at a position other than the end: the hierarchy in memory is what has to be written
+            from praatio.data_classes.klattgrid import KlattSubPointTier
+
+            try:
+                cont = kg._tierDict[rng.choice(["oral_formants", "frication_formants"])]
+                kit = cont.tierDict[rng.choice(["formants", "bandwidths"])]
+                idx = rng.randrange(0, len(kit.tierNameList) + 1)
+                kit.addTier(KlattSubPointTier("%s [x%d]" % (kit.name, k), [(0.25, 1800.0 + k), (0.5, 1750.125)], kit.minTimestamp or 0, kit.maxTimestamp or 1.0),
+                            idx if idx < len(kit.tierNameList) else None)
+                REC.cls("C19:subtier-inserted-at-index")
+            except Exception as e:
+                REC.note("sub-tier insertion failed: %s" % type(e).__name__)
         if call(lambda: (kg.save(out), True)[1]):
             _current.update(classes=["C19:praatio-style-no-trailing-blank"], sig=("resaved", nform))
             kg2 = call(klattgrid.openKlattgrid, out)
@@ -481,21 +494,54 @@ def _workload(tier, rng, shard, nshards, work):
                 REC.violation(PROP, "po.open", "long-vs-short", {"call": "po.lvs", "klass": klass, "lo": lo, "hi": hi, "pts": pts},
                               "long and short encodings of the same %s open to different objects: %r vs %r" % (klass, po_snapshot(objs[True]), po_snapshot(objs[False])), ("lvs", klass), {"op": "po.lvs"})
         # save -> open of an object built through the public constructor
-        try:
-            po = (PointObject1D if klass == "PointProcess" else PointObject2D)(pts, klass, lo, hi)
-        except Exception:
-            continue
-        fn = os.path.join(str(work), "posave.%s" % klass)
-        if call(lambda: (po.save(fn), True)[1]):
-            back = call(opener, fn)
-            if back is not None and po_snapshot(back) != po_snapshot(po):
-                REC.violation(PROP, "po.save", "save;open", {"call": "po.rt", "object": po_snapshot(po)}, "save then open gives %r, saved %r" % (po_snapshot(back), po_snapshot(po)), ("po.rt", klass), {"op": "po.rt"})
+        rows_as = ("tuple", "list", "list", "tuple")[k % 4]  # the caller's rows: tuples, or lists it keeps using afterwards
+        rows = [list(p) for p in pts] if rows_as == "list" else list(pts)
+        po_roundtrip(klass, lo, hi, rows, rows_as, opener, work)
+
+
+def po_roundtrip(klass, lo, hi, rows, rows_as, opener, work):
+    from praatio.data_classes.data_point import PointObject1D, PointObject2D
+
+    case = {"call": "po.rt", "klass": klass, "lo": lo, "hi": hi, "rows": [list(r) for r in rows], "rows_as": rows_as}
+    sig = ("po.rt", klass, rows_as, min(len(rows), 4))
+    mech = {"op": "po.rt", "rows_as": rows_as}
+    try:
+        po = (PointObject1D if klass == "PointProcess" else PointObject2D)(rows, klass, lo, hi)
+    except Exception:
+        return
+    held_before = po_snapshot(po)
+    fn = os.path.join(str(work), "posave.%s" % klass)
+    if not call(lambda: (po.save(fn), True)[1]):
+        return
+    back = call(opener, fn)
+    if back is None:
+        return
+    why = None
+    if po_snapshot(back) != held_before:
+        why = "save then open gives %r, saved %r" % (po_snapshot(back), held_before)
+    elif not (back == po) or not (po == back):
+        why = "the object built from %s rows and the object read back from its own file hold the same class, span and numbers %r but do not compare equal" % (rows_as, held_before["points"][:4])
+    elif rows_as == "list" and rows:
+        # the caller goes on using its own rows
+        rows[0][0] = rows[0][0] + 1000.0
+        if po_snapshot(po) != held_before:
+            why = "editing the caller's own row after construction changed the object: %r -> %r" % (held_before["points"][:3], po_snapshot(po)["points"][:3])
+    if why:
+        REC.violation(PROP, "po.save", "save;open", case, why, sig, mech)
+    else:
+        REC.held("po.save", sig if rows else None, "C19:po:rows-as-%s" % rows_as, None)
 
 
 def replay(v, work):
     from praatio import data_points, klattgrid
 
     c = v["case"]
+    if c["call"] == "po.rt" and "rows" in c:
+        opener = data_points.open1DPointObject if c["klass"] == "PointProcess" else data_points.open2DPointObject
+        rows = [list(r) if c["rows_as"] == "list" else tuple(r) for r in c["rows"]]
+        with contextlib.redirect_stdout(io.StringIO()):
+            po_roundtrip(c["klass"], c["lo"], c["hi"], rows, c["rows_as"], opener, work)
+        return
     with contextlib.redirect_stdout(io.StringIO()):
         if c["call"] in ("kg.open", "kg.reopen") and (c.get("file") or c.get("file_zb64")):
             import base64
